@@ -153,7 +153,7 @@ def run(chk, tier):
     # ---- R3: advance_round immediately follows publish_trace, and restarts the clock -------------------
     chk.rule('R3', 'advance_round follows publish_trace on the same traces; next round starts at publication', floor=3)
     st = St()
-    outs = eng0.run(f, [eng0.sym_ref(st, 'self'), eng0.sym_ref(st, 'st')], st)
+    outs = engu.run(f, [engu.sym_ref(st, 'self'), engu.sym_ref(st, 'st')], st)      # helpers on the way to publish_trace inlined: the pairing may sit in one
     for i, o in enumerate(outs):
         names = [short(c[1]) for c in user_calls(o)]
         pub = [j for j, n in enumerate(names) if n.endswith('publish_trace')]
